@@ -10,7 +10,7 @@ func (c *Conn) handleMove(dec *imapwire.Decoder, numKind NumKind) error {
 	if err != nil {
 		return err
 	}
-	if err := c.checkState(imap.ConnStateSelected); err != nil {
+	if err := c.checkWritable(); err != nil {
 		return err
 	}
 	session, ok := c.session.(SessionMove)
